@@ -126,7 +126,7 @@ func main() {
 	run := vk.Start("C12")
 	run.MaxReplays = 40
 	nb := 8
-	passes := run.Pick(1, 5)
+	passes := run.Pick(1, 10)
 	args := batchArgs{NB: nb, SlowKeep: run.Pick(4, 1), Seq: run.Pick(16, 80), HTTPExtra: run.Pick(2, 6), Malformed: run.Pick(40, 120), Whip: run.Pick(6, 20)}
 	type job struct {
 		b    uint64
